@@ -89,7 +89,13 @@ def stmt(ins):
     if k == "delete": return "$o%d delete" % ins[1]
     if k == "spawn": return 'local.sp%d = spawn SimpleEntity targetname "o%d"' % (ins[1], ins[1])
     if k == "thread": return "thread t%d local" % ins[1]
-    if k == "waitthread": return "waitthread t%d local" % ins[1]
+    if k == "waitthread":
+        # third field: the statement form (operand stack empty while the caller waits) or an
+        # expression form (the caller is suspended with operands on its VM stack)
+        form = ins[2] if len(ins) > 2 else 0
+        if form == 1: return "local.r = waitthread t%d local" % ins[1]
+        if form == 2: return "local.r[1] = (waitthread t%d local)" % ins[1]
+        return "waitthread t%d local" % ins[1]
     if k == "pause": return "pause"
     if k == "waitparent": return "local.p0 wait %s" % secs(ins[1])
     if k == "waittillparent":
@@ -398,7 +404,7 @@ def gen_c09_prog(rng):
             elif r < 0.65 and i + 1 < nl:
                 body.append(("thread", rng.randint(i + 1, nl - 1)))
             elif r < 0.85 and i + 1 < nl:
-                body.append(("waitthread", rng.randint(i + 1, nl - 1)))
+                body.append(("waitthread", rng.randint(i + 1, nl - 1), rng.choice([0, 0, 1, 2])))
             elif r < 0.9:
                 body.append(("pause",))
             elif r < 0.94:
